@@ -1,7 +1,1965 @@
-//! C09 — not built yet.
-use vcore::Ctx;
+//! C09 — strict validation rejects exactly the documents the GraphQL specification calls invalid.
+//!
+//! Domain: valid documents from the typed generator over random dynamic schemas and over a derive-built static
+//! schema, and variants produced by rule-targeted mutation operators. The REFERENCE validator
+//! (`vgql::refvalidate`, written from the specification) decides validity and names the rules; an operator's
+//! intent is never trusted. Observation: a recording extension's `validation` hook, the responses, and the
+//! resolver log (dynamic) / resolver counter (static).
+use async_graphql::extensions::{Extension, ExtensionContext, ExtensionFactory, NextValidation};
+use async_graphql::{Request, Response, ServerError, ValidationResult, Variables};
+use futures_util::StreamExt;
+use indexmap::IndexMap;
+use std::sync::{Arc, Mutex};
+use vcore::{Case, Ctx, Src};
+use vgql::ast::*;
+use vgql::coerce::CV;
+use vgql::gensch::*;
+use vgql::gentyped::*;
+use vgql::print::print_plain;
+use vgql::refvalidate::{builtin_directives, validate_full, DirDef, Input, Quirks, Report, RULES};
+use vgql::sch::*;
+use vgql::world::*;
+use vschemas::dynbuild::build_dynamic;
+use vschemas::rt::Rt;
 
-pub fn run(_ctx: &mut Ctx) {
-    eprintln!("C09: check not built yet");
-    std::process::exit(2);
+// ---------------------------------------------------------------------------------------------------------------
+// the derive-built static schema
+
+mod st {
+    use async_graphql::*;
+    use futures_util::stream::{self, Stream};
+    use std::sync::atomic::{AtomicU64, Ordering};
+
+    /// number of resolver invocations (every resolver of the schema counts itself)
+    pub static CALLS: AtomicU64 = AtomicU64::new(0);
+    fn hit() {
+        CALLS.fetch_add(1, Ordering::SeqCst);
+    }
+
+    #[derive(Enum, Copy, Clone, Eq, PartialEq)]
+    pub enum Color {
+        Red,
+        Green,
+        Blue,
+    }
+
+    #[derive(InputObject)]
+    pub struct Point {
+        pub x: i32,
+        #[graphql(default = 7)]
+        pub y: i32,
+        pub label: Option<String>,
+        pub tags: Option<Vec<String>>,
+    }
+
+    #[derive(InputObject)]
+    pub struct Filter {
+        pub color: Option<Color>,
+        pub near: Option<Point>,
+        #[graphql(default = 10)]
+        pub limit: i32,
+        pub ids: Option<Vec<ID>>,
+        pub ratio: Option<f64>,
+    }
+
+    #[derive(OneofObject)]
+    pub enum Key {
+        Id(ID),
+        Name(String),
+        At(Point),
+        Nums(Vec<i32>),
+    }
+
+    pub struct Dog;
+    pub struct Cat;
+    pub struct Robot;
+
+    #[Object]
+    impl Dog {
+        async fn id(&self) -> ID {
+            hit();
+            ID::from("d1")
+        }
+        async fn name(&self) -> String {
+            hit();
+            "Rex".into()
+        }
+        async fn legs(&self, min: Option<i32>) -> i32 {
+            hit();
+            min.unwrap_or(0).max(4)
+        }
+        async fn friend(&self) -> Option<Animal> {
+            hit();
+            Some(Animal::Cat(Cat))
+        }
+        async fn barks(&self) -> bool {
+            hit();
+            true
+        }
+        async fn color(&self) -> Color {
+            hit();
+            Color::Red
+        }
+    }
+
+    #[Object]
+    impl Cat {
+        async fn id(&self) -> ID {
+            hit();
+            ID::from("c1")
+        }
+        async fn name(&self) -> String {
+            hit();
+            "Tom".into()
+        }
+        async fn legs(&self, min: Option<i32>) -> i32 {
+            hit();
+            min.unwrap_or(0).max(4)
+        }
+        async fn friend(&self) -> Option<Animal> {
+            hit();
+            None
+        }
+        async fn lives(&self) -> i32 {
+            hit();
+            9
+        }
+        /// nullable here, non-null on Dog: different response shapes
+        async fn color(&self) -> Option<Color> {
+            hit();
+            Some(Color::Blue)
+        }
+    }
+
+    #[Object]
+    impl Robot {
+        /// Int! here, ID! on Dog
+        async fn id(&self) -> i32 {
+            hit();
+            1
+        }
+        /// nullable here, non-null on Dog
+        async fn name(&self) -> Option<String> {
+            hit();
+            None
+        }
+        async fn model(&self) -> i32 {
+            hit();
+            800
+        }
+        async fn parts(&self) -> Vec<String> {
+            hit();
+            vec!["arm".into()]
+        }
+    }
+
+    #[derive(Interface)]
+    #[graphql(field(name = "id", ty = "ID"), field(name = "name", ty = "String"), field(name = "legs", ty = "i32", arg(name = "min", ty = "Option<i32>")), field(name = "friend", ty = "Option<Animal>"))]
+    pub enum Animal {
+        Dog(Dog),
+        Cat(Cat),
+    }
+
+    #[derive(Union)]
+    pub enum Thing {
+        Dog(Dog),
+        Robot(Robot),
+    }
+
+    pub struct Query;
+    #[Object]
+    impl Query {
+        async fn animals(&self) -> Vec<Animal> {
+            hit();
+            vec![Animal::Dog(Dog), Animal::Cat(Cat)]
+        }
+        async fn animal(&self, key: Key) -> Option<Animal> {
+            hit();
+            match key {
+                Key::Id(_) => Some(Animal::Dog(Dog)),
+                Key::Name(_) => Some(Animal::Cat(Cat)),
+                _ => None,
+            }
+        }
+        async fn things(&self, filter: Option<Filter>, #[graphql(default = 10)] first: i32) -> Vec<Thing> {
+            hit();
+            let _ = (filter.map(|f| f.limit), first);
+            vec![Thing::Dog(Dog), Thing::Robot(Robot)]
+        }
+        async fn dog(&self) -> Dog {
+            hit();
+            Dog
+        }
+        async fn robot(&self) -> Option<Robot> {
+            hit();
+            Some(Robot)
+        }
+        async fn sum(&self, xs: Vec<i32>) -> i32 {
+            hit();
+            xs.iter().fold(0i32, |a, b| a.wrapping_add(*b))
+        }
+        async fn matrix(&self, m: Option<Vec<Vec<i32>>>) -> i32 {
+            hit();
+            m.map_or(0, |m| m.len() as i32)
+        }
+        async fn echo(&self, p: Point, #[graphql(default_with = "Color::Green")] c: Color) -> String {
+            hit();
+            format!("{}/{}/{}", p.x, p.y, c == Color::Green)
+        }
+        async fn flag(&self, on: bool, ratio: Option<f64>, id: Option<ID>, text: Option<String>) -> bool {
+            hit();
+            let _ = (ratio, id, text);
+            on
+        }
+    }
+
+    pub struct Mutation;
+    #[Object]
+    impl Mutation {
+        async fn rename(&self, id: ID, name: String) -> Dog {
+            hit();
+            let _ = (id, name);
+            Dog
+        }
+        async fn bump(&self, #[graphql(default = 1)] by: i32) -> i32 {
+            hit();
+            by
+        }
+    }
+
+    pub struct Subscription;
+    #[Subscription]
+    impl Subscription {
+        async fn ticks(&self, #[graphql(default = 2)] n: i32) -> impl Stream<Item = i32> {
+            hit();
+            stream::iter(0..n.clamp(0, 3))
+        }
+        async fn events(&self) -> impl Stream<Item = Thing> {
+            hit();
+            stream::iter(vec![Thing::Dog(Dog), Thing::Robot(Robot)])
+        }
+    }
+
+    pub type S = Schema<Query, Mutation, Subscription>;
+}
+
+// ---------------------------------------------------------------------------------------------------------------
+// observation
+
+type ValLog = Arc<Mutex<Vec<Result<(), Vec<ServerError>>>>>;
+
+#[derive(Clone, Default)]
+struct Tap(ValLog);
+impl ExtensionFactory for Tap {
+    fn create(&self) -> Arc<dyn Extension> {
+        Arc::new(TapExt(self.0.clone()))
+    }
+}
+struct TapExt(ValLog);
+#[async_trait::async_trait]
+impl Extension for TapExt {
+    async fn validation(&self, ctx: &ExtensionContext<'_>, next: NextValidation<'_>) -> Result<ValidationResult, Vec<ServerError>> {
+        let r = next.run(ctx).await;
+        self.0.lock().unwrap().push(match &r {
+            Ok(_) => Ok(()),
+            Err(e) => Err(e.clone()),
+        });
+        r
+    }
+}
+
+struct Outcome {
+    /// what the validation stage returned (None: the request did not reach it)
+    validation: Option<Result<(), Vec<ServerError>>>,
+    responses: Vec<Response>,
+    resolver_calls: u64,
+}
+
+fn request(text: &str, vars: &IndexMap<String, CV>, op_name: Option<&str>) -> Request {
+    let j = serde_json::Value::Object(vars.iter().map(|(k, v)| (k.clone(), v.to_json())).collect());
+    let mut r = Request::new(text).variables(Variables::from_json(j));
+    if let Some(n) = op_name {
+        r = r.operation_name(n);
+    }
+    r
+}
+
+fn run_static(schema: &st::S, tap: &Tap, req: Request, stream: bool) -> Outcome {
+    tap.0.lock().unwrap().clear();
+    let before = st::CALLS.load(std::sync::atomic::Ordering::SeqCst);
+    let responses = if stream { vcore::det::block_on(schema.execute_stream(req).collect::<Vec<_>>()) } else { vec![vcore::det::block_on(schema.execute(req))] };
+    let resolver_calls = st::CALLS.load(std::sync::atomic::Ordering::SeqCst) - before;
+    Outcome { validation: tap.0.lock().unwrap().pop(), responses, resolver_calls }
+}
+
+fn run_dynamic(sch: &Sch, world: &World, req: Request, stream: bool) -> Result<Outcome, String> {
+    let rt = Rt::new(world.clone());
+    let tap = Tap::default();
+    let t2 = tap.clone();
+    let schema = build_dynamic(sch, &rt, move |b| b.extension(t2)).map_err(|e| format!("generated schema does not build: {}", e))?;
+    let responses = if stream { vcore::det::block_on(schema.execute_stream(req).collect::<Vec<_>>()) } else { vec![vcore::det::block_on(schema.execute(req))] };
+    let resolver_calls = rt.take_log().len() as u64;
+    let validation = tap.0.lock().unwrap().pop();
+    Ok(Outcome { validation, responses, resolver_calls })
+}
+
+/// the harness's custom scalars accept the integers 0..=9 (vschemas::dynbuild::custom_scalar_valid)
+fn custom_scalar_ok(_name: &str, v: &CV) -> bool {
+    matches!(v, CV::Int(i) if (0..=9).contains(i))
+}
+
+// ---------------------------------------------------------------------------------------------------------------
+// typed traversal of a document: the places mutation operators work on
+
+enum Site<'x> {
+    Op(&'x mut OpDef),
+    Frag(&'x mut FragDef),
+    VarDef(&'x mut VarDef),
+    /// a selection set whose parent type is known; `root_of` = it belongs to the root level of an operation
+    Sel { sel: &'x mut SelSet, parent: &'x str, root_of: Option<OpKind> },
+    Field { f: &'x mut Field, parent: &'x str, def: Option<&'x FieldDef> },
+    Inline { i: &'x mut Inline, parent: &'x str },
+    Spread { sp: &'x mut Spread },
+    /// a position where a value of type `ty` is expected (argument, list item, input field, variable default)
+    Value { v: &'x mut PVal, ty: &'x Ty, konst: bool },
+    Dirs { ds: &'x mut Vec<Directive>, location: &'static str },
+}
+
+fn field_def(sch: &Sch, parent: &str, name: &str) -> Option<FieldDef> {
+    if name == "__typename" {
+        return Some(FieldDef { name: name.into(), args: vec![], ty: Ty::parse("String!"), desc: None, deprecated: None });
+    }
+    sch.field(parent, name).cloned()
+}
+
+struct Walk<'s> {
+    sch: &'s Sch,
+    dirs: Vec<DirDef>,
+}
+
+impl<'s> Walk<'s> {
+    fn value(&self, v: &mut PVal, ty: &Ty, konst: bool, cb: &mut dyn FnMut(Site<'_>)) {
+        cb(Site::Value { v: &mut *v, ty, konst });
+        match (&mut v.v, ty.nullable()) {
+            (Val::List(items), Ty::List(inner)) => {
+                for it in items.iter_mut() {
+                    self.value(it, inner, konst, cb);
+                }
+            }
+            (Val::Obj(fields), Ty::Named(n)) => {
+                if let Some(td) = self.sch.ty(n).filter(|t| t.kind == Kind::Input) {
+                    for (k, fv) in fields.iter_mut() {
+                        if let Some(fd) = td.input_fields.iter().find(|f| f.name == k.s) {
+                            self.value(fv, &fd.ty, konst, cb);
+                        }
+                    }
+                }
+            }
+            _ => {}
+        }
+    }
+
+    fn dirs(&self, ds: &mut Vec<Directive>, location: &'static str, cb: &mut dyn FnMut(Site<'_>)) {
+        cb(Site::Dirs { ds: &mut *ds, location });
+        for d in ds.iter_mut() {
+            if let Some(def) = self.dirs.iter().find(|x| x.name == d.name.s) {
+                for (n, v) in d.args.iter_mut() {
+                    if let Some(ad) = def.args.iter().find(|a| a.name == n.s) {
+                        self.value(v, &ad.ty, false, cb);
+                    }
+                }
+            }
+        }
+    }
+
+    fn selset(&self, sel: &mut SelSet, parent: &str, root_of: Option<OpKind>, cb: &mut dyn FnMut(Site<'_>)) {
+        cb(Site::Sel { sel: &mut *sel, parent, root_of });
+        for it in sel.items.iter_mut() {
+            match it {
+                Selection::Field(f) => {
+                    let def = field_def(self.sch, parent, &f.name.s);
+                    cb(Site::Field { f: &mut *f, parent, def: def.as_ref() });
+                    if let Some(d) = &def {
+                        for (n, v) in f.args.iter_mut() {
+                            if let Some(ad) = d.arg(&n.s) {
+                                self.value(v, &ad.ty, false, cb);
+                            }
+                        }
+                    }
+                    self.dirs(&mut f.directives, "FIELD", cb);
+                    if let Some(d) = &def {
+                        let base = d.ty.base();
+                        if self.sch.is_composite(base) && !f.sel.items.is_empty() {
+                            self.selset(&mut f.sel, base, None, cb);
+                        }
+                    }
+                }
+                Selection::Inline(i) => {
+                    cb(Site::Inline { i: &mut *i, parent });
+                    self.dirs(&mut i.directives, "INLINE_FRAGMENT", cb);
+                    let p = i.cond.as_ref().map(|c| c.s.clone()).unwrap_or_else(|| parent.to_string());
+                    if self.sch.is_composite(&p) && !i.sel.items.is_empty() {
+                        self.selset(&mut i.sel, &p, root_of, cb);
+                    }
+                }
+                Selection::Spread(sp) => {
+                    cb(Site::Spread { sp: &mut *sp });
+                    self.dirs(&mut sp.directives, "FRAGMENT_SPREAD", cb);
+                }
+            }
+        }
+    }
+}
+
+fn each_site(doc: &mut Doc, sch: &Sch, cb: &mut dyn FnMut(Site<'_>)) {
+    let w = Walk { sch, dirs: builtin_directives() };
+    for def in doc.defs.iter_mut() {
+        match def {
+            Def::Op(o) => {
+                let kind = o.kind;
+                cb(Site::Op(&mut *o));
+                for vd in o.vars.iter_mut() {
+                    cb(Site::VarDef(&mut *vd));
+                    let ty = vd.ty.ty.clone();
+                    if sch.is_input(ty.base()) {
+                        if let Some(d) = vd.default.as_mut() {
+                            w.value(d, &ty, true, cb);
+                        }
+                    }
+                    w.dirs(&mut vd.directives, "VARIABLE_DEFINITION", cb);
+                }
+                let loc = match kind {
+                    OpKind::Query => "QUERY",
+                    OpKind::Mutation => "MUTATION",
+                    OpKind::Subscription => "SUBSCRIPTION",
+                };
+                w.dirs(&mut o.directives, loc, cb);
+                if let Some(root) = sch.root(kind) {
+                    w.selset(&mut o.sel, root, Some(kind), cb);
+                }
+            }
+            Def::Frag(f) => {
+                cb(Site::Frag(&mut *f));
+                w.dirs(&mut f.directives, "FRAGMENT_DEFINITION", cb);
+                let c = f.cond.s.clone();
+                if sch.is_composite(&c) {
+                    w.selset(&mut f.sel, &c, None, cb);
+                }
+            }
+        }
+    }
+}
+
+/// apply `apply` to a randomly chosen site among those satisfying `test`; false if there is none
+fn mutate_nth(doc: &mut Doc, sch: &Sch, s: &mut dyn Src, test: &dyn Fn(&Site<'_>) -> bool, apply: &mut dyn FnMut(Site<'_>, &mut dyn Src)) -> bool {
+    let mut n = 0usize;
+    each_site(doc, sch, &mut |site| {
+        if test(&site) {
+            n += 1
+        }
+    });
+    if n == 0 {
+        return false;
+    }
+    let k = s.choose(n);
+    let mut i = 0usize;
+    let mut done = false;
+    each_site(doc, sch, &mut |site| {
+        if !done && test(&site) {
+            if i == k {
+                apply(site, s);
+                done = true;
+            }
+            i += 1;
+        }
+    });
+    true
+}
+
+fn fld(name: &str, alias: Option<&str>) -> Field {
+    let mut f = Field::new(name);
+    f.alias = alias.map(Name::new);
+    f
+}
+fn typename_sel() -> SelSet {
+    SelSet::new(vec![Selection::Field(Field::new("__typename"))])
+}
+fn inline(cond: Option<&str>, sel: SelSet) -> Selection {
+    Selection::Inline(Inline { pos: Pos::default(), cond: cond.map(Name::new), cond_pos: Pos::default(), directives: vec![], sel })
+}
+fn spread(name: &str) -> Selection {
+    Selection::Spread(Spread { pos: Pos::default(), name: Name::new(name), directives: vec![] })
+}
+fn frag(name: &str, cond: &str, sel: SelSet) -> Def {
+    Def::Frag(FragDef { pos: Pos::default(), name: Name::new(name), cond: Name::new(cond), cond_pos: Pos::default(), directives: vec![], sel })
+}
+fn vardef(name: &str, ty: Ty, default: Option<Val>) -> VarDef {
+    VarDef { pos: Pos::default(), name: Name::new(name), ty: PTy { pos: Pos::default(), ty }, default: default.map(PVal::new), directives: vec![] }
+}
+/// leaf fields of an object/interface type that can be selected without arguments
+fn plain_leaf_fields(sch: &Sch, ty: &str) -> Vec<FieldDef> {
+    sch.ty(ty).map(|t| t.fields.iter().filter(|f| sch.is_leaf(f.ty.base()) && f.args.iter().all(|a| !a.ty.is_nn() || a.default.is_some())).cloned().collect()).unwrap_or_default()
+}
+fn plain_composite_fields(sch: &Sch, ty: &str) -> Vec<FieldDef> {
+    sch.ty(ty).map(|t| t.fields.iter().filter(|f| sch.is_composite(f.ty.base()) && f.args.iter().all(|a| !a.ty.is_nn() || a.default.is_some())).cloned().collect()).unwrap_or_default()
+}
+
+// ---------------------------------------------------------------------------------------------------------------
+// the request under mutation
+
+/// constructs of OPEN findings that the main streams leave out (the probe streams put them back)
+#[derive(Clone, Copy, Default)]
+struct Excl {
+    var_position: bool,
+    cross_condition_conflicts: bool,
+    subscription_roots: bool,
+    duplicate_input_fields: bool,
+    non_object_for_input: bool,
+    /// probe streams: the one way an input object literal is broken (see `wrong_literal`)
+    force_input_kind: Option<u8>,
+}
+
+struct M<'a> {
+    sch: &'a Sch,
+    doc: Doc,
+    vars: IndexMap<String, CV>,
+    op_name: Option<String>,
+    /// type-system definitions appended to the request text
+    extra_text: String,
+    extra_defs: usize,
+    excl: Excl,
+}
+
+impl<'a> M<'a> {
+    fn first_op(&mut self) -> &mut OpDef {
+        match self.doc.defs.iter_mut().find(|d| matches!(d, Def::Op(_))) {
+            Some(Def::Op(o)) => o,
+            _ => unreachable!("generated documents have an operation"),
+        }
+    }
+}
+
+/// a literal that the type's input coercion must reject (None: the type has no such literal in this domain)
+fn wrong_literal(m: &M<'_>, ty: &Ty, cur: &Val, s: &mut dyn Src) -> Option<Val> {
+    let sch = m.sch;
+    if ty.is_nn() && m.excl.force_input_kind.is_none() && s.chance(1, 5) {
+        return Some(Val::Null);
+    }
+    match ty.nullable() {
+        Ty::NonNull(_) => None,
+        Ty::List(inner) => {
+            let w = wrong_literal(m, inner, &Val::Null, s)?;
+            // inside a list, or as the single value that list coercion wraps
+            Some(if s.bool() { Val::List(vec![PVal::new(w)]) } else { w })
+        }
+        Ty::Named(n) => {
+            let pick = |s: &mut dyn Src, xs: Vec<Val>| -> Option<Val> {
+                let i = s.choose(xs.len());
+                Some(xs[i].clone())
+            };
+            let one = |v: Val| Val::List(vec![PVal::new(v)]);
+            match n.as_str() {
+                "Int" => pick(s, vec![Val::Str("1".into()), Val::Float("1.5".into()), Val::Bool(true), Val::Int("2147483648".into()), Val::Int("-2147483649".into()), Val::Enum("ONE".into()), Val::Obj(vec![]), Val::Float("1e3".into())]),
+                "Float" => pick(s, vec![Val::Str("1.5".into()), Val::Bool(false), Val::Enum("NaN".into()), Val::Obj(vec![])]),
+                "String" => pick(s, vec![Val::Int("1".into()), Val::Float("0.5".into()), Val::Bool(true), Val::Enum("abc".into()), Val::Obj(vec![])]),
+                "Boolean" => pick(s, vec![Val::Int("1".into()), Val::Str("true".into()), Val::Enum("TRUE".into()), Val::Float("0.0".into())]),
+                "ID" => pick(s, vec![Val::Float("1.5".into()), Val::Bool(true), Val::Enum("id1".into()), Val::Obj(vec![])]),
+                _ => {
+                    let td = sch.ty(n)?;
+                    match td.kind {
+                        Kind::Enum => pick(s, vec![Val::Str(td.values[0].name.clone()), Val::Enum("NOPE_9".into()), Val::Int("0".into()), Val::Bool(true), one(Val::Enum("NOPE_9".into()))]),
+                        Kind::Input => {
+                            let base = match cur {
+                                Val::Obj(f) => f.clone(),
+                                _ => match gen_input_literal(sch, &Ty::named(n), s, 2) {
+                                    Val::Obj(f) => f,
+                                    _ => vec![],
+                                },
+                            };
+                            let mut kinds: Vec<u8> = vec![1]; // unknown field
+                            if !m.excl.non_object_for_input {
+                                kinds.push(0);
+                            }
+                            if !td.one_of && td.input_fields.iter().any(|f| f.ty.is_nn() && f.default.is_none()) {
+                                kinds.push(2);
+                            }
+                            if !base.is_empty() && !m.excl.duplicate_input_fields {
+                                kinds.push(3);
+                            }
+                            if td.one_of {
+                                kinds.extend([4, 5, 6]);
+                            }
+                            let mut f = base;
+                            let kind = match m.excl.force_input_kind {
+                                Some(k) if kinds.contains(&k) => k,
+                                Some(_) => return None,
+                                None => kinds[s.choose(kinds.len())],
+                            };
+                            match kind {
+                                0 => return pick(s, vec![Val::Int("1".into()), Val::Str("x".into()), Val::Bool(true), Val::Enum("E".into()), Val::Float("1.5".into())]),
+                                1 => f.push((Name::new("zz9"), PVal::new(Val::Int("1".into())))),
+                                2 => {
+                                    let req: Vec<&ArgDef> = td.input_fields.iter().filter(|f| f.ty.is_nn() && f.default.is_none()).collect();
+                                    let r = req[s.choose(req.len())].name.clone();
+                                    f.retain(|(k, _)| k.s != r);
+                                }
+                                3 => {
+                                    let d = f[s.choose(f.len())].clone();
+                                    f.push(d);
+                                }
+                                4 => f.clear(),
+                                5 => {
+                                    // a second field
+                                    let other: Vec<&ArgDef> = td.input_fields.iter().filter(|x| !f.iter().any(|(k, _)| k.s == x.name)).collect();
+                                    if other.is_empty() {
+                                        f.clear();
+                                    } else {
+                                        let o = other[s.choose(other.len())];
+                                        let v = gen_input_literal(sch, &Ty::nn(o.ty.clone()), s, 2);
+                                        f.push((Name::new(o.name.clone()), PVal::new(v)));
+                                    }
+                                }
+                                _ => {
+                                    let o = &td.input_fields[s.choose(td.input_fields.len())];
+                                    f = vec![(Name::new(o.name.clone()), PVal::new(Val::Null))];
+                                }
+                            }
+                            Some(Val::Obj(f))
+                        }
+                        // custom scalars: what they accept is the scalar's business
+                        _ => None,
+                    }
+                }
+            }
+        }
+    }
+}
+
+type Operator = fn(&mut M<'_>, &mut dyn Src) -> bool;
+
+fn op_unknown_field(m: &mut M<'_>, s: &mut dyn Src) -> bool {
+    let sch = m.sch;
+    if s.chance(1, 4) {
+        // the query root's meta fields anywhere else
+        let q = sch.query.clone();
+        return mutate_nth(&mut m.doc, sch, s, &|x| matches!(x, Site::Sel { parent, root_of, .. } if *parent != q && root_of.is_none()), &mut |x, s| {
+            if let Site::Sel { sel, .. } = x {
+                let mut f = if s.bool() { fld("__schema", Some("zs")) } else { fld("__type", Some("zt")) };
+                if f.name.s == "__type" {
+                    f.args.push((Name::new("name"), PVal::new(Val::Str("Query".into()))));
+                }
+                f.sel = SelSet::new(vec![Selection::Field(Field::new("__typename"))]);
+                sel.items.push(Selection::Field(f));
+            }
+        });
+    }
+    mutate_nth(&mut m.doc, sch, s, &|x| matches!(x, Site::Field { .. }), &mut |x, s| {
+        if let Site::Field { f, parent, .. } = x {
+            // an unknown name, or a field of another type
+            let other: Vec<String> = sch.types.values().filter(|t| matches!(t.kind, Kind::Object | Kind::Interface) && t.name != parent).flat_map(|t| t.fields.iter().map(|f| f.name.clone())).filter(|n| sch.field(parent, n).is_none()).collect();
+            f.name = Name::new(if other.is_empty() || s.bool() { "zz9".to_string() } else { other[s.choose(other.len())].clone() });
+        }
+    })
+}
+
+fn op_unknown_argument(m: &mut M<'_>, s: &mut dyn Src) -> bool {
+    let sch = m.sch;
+    if s.chance(1, 4) {
+        return mutate_nth(&mut m.doc, sch, s, &|x| matches!(x, Site::Dirs { ds, .. } if !ds.is_empty()), &mut |x, _| {
+            if let Site::Dirs { ds, .. } = x {
+                ds[0].args.push((Name::new("zz9"), PVal::new(Val::Bool(true))));
+            }
+        });
+    }
+    mutate_nth(&mut m.doc, sch, s, &|x| matches!(x, Site::Field { def: Some(_), .. }), &mut |x, s| {
+        if let Site::Field { f, .. } = x {
+            let v = if s.bool() { Val::Int("1".into()) } else { Val::Null };
+            f.args.push((Name::new("zz9"), PVal::new(v)));
+        }
+    })
+}
+
+fn op_unknown_type(m: &mut M<'_>, s: &mut dyn Src) -> bool {
+    let sch = m.sch;
+    mutate_nth(&mut m.doc, sch, s, &|x| matches!(x, Site::Inline { i, .. } if i.cond.is_some()) || matches!(x, Site::Frag(_) | Site::VarDef(_)), &mut |x, _| match x {
+        Site::Inline { i, .. } => i.cond = Some(Name::new("Zz9")),
+        Site::Frag(f) => f.cond = Name::new("Zz9"),
+        Site::VarDef(v) => {
+            fn rebase(t: &Ty) -> Ty {
+                match t {
+                    Ty::Named(_) => Ty::named("Zz9"),
+                    Ty::List(i) => Ty::list(rebase(i)),
+                    Ty::NonNull(i) => Ty::nn(rebase(i)),
+                }
+            }
+            v.ty.ty = rebase(&v.ty.ty);
+        }
+        _ => {}
+    })
+}
+
+fn op_unknown_directive(m: &mut M<'_>, s: &mut dyn Src) -> bool {
+    let sch = m.sch;
+    mutate_nth(&mut m.doc, sch, s, &|x| matches!(x, Site::Dirs { .. }), &mut |x, s| {
+        if let Site::Dirs { ds, .. } = x {
+            let mut d = Directive::new("zz9", vec![]);
+            if s.bool() {
+                d.args.push((Name::new("if"), PVal::new(Val::Bool(true))));
+            }
+            ds.push(d);
+        }
+    })
+}
+
+fn op_unknown_fragment(m: &mut M<'_>, s: &mut dyn Src) -> bool {
+    let sch = m.sch;
+    mutate_nth(&mut m.doc, sch, s, &|x| matches!(x, Site::Sel { root_of, .. } if *root_of != Some(OpKind::Subscription)) || matches!(x, Site::Spread { .. }), &mut |x, _| match x {
+        Site::Sel { sel, .. } => sel.items.push(spread("Zz9")),
+        Site::Spread { sp } => sp.name = Name::new("Zz9"),
+        _ => {}
+    })
+}
+
+fn op_wrong_literal(m: &mut M<'_>, s: &mut dyn Src) -> bool {
+    let sch = m.sch;
+    // make sure there is a typed value somewhere: give an argument to a field that takes one
+    if s.chance(1, 3) {
+        mutate_nth(&mut m.doc, sch, s, &|x| matches!(x, Site::Field { f, def: Some(d), .. } if d.args.iter().any(|a| !f.args.iter().any(|(n, _)| n.s == a.name))), &mut |x, s| {
+            if let Site::Field { f, def: Some(d), .. } = x {
+                let missing: Vec<&ArgDef> = d.args.iter().filter(|a| !f.args.iter().any(|(n, _)| n.s == a.name)).collect();
+                let a = missing[s.choose(missing.len())];
+                f.args.push((Name::new(a.name.clone()), PVal::new(gen_input_literal(sch, &a.ty, s, 0))));
+            }
+        });
+    }
+    let snapshot = M { sch, doc: Doc::default(), vars: IndexMap::new(), op_name: None, extra_text: String::new(), extra_defs: 0, excl: m.excl };
+    let mut changed = false;
+    mutate_nth(&mut m.doc, sch, s, &|x| matches!(x, Site::Value { ty, .. } if sch.kind(ty.base()) != Some(Kind::Scalar) || BUILTIN_SCALARS.contains(&ty.base())), &mut |x, s| {
+        if let Site::Value { v, ty, .. } = x {
+            if let Some(w) = wrong_literal(&snapshot, ty, &v.v, s) {
+                v.v = w;
+                changed = true;
+            }
+        }
+    });
+    changed
+}
+
+fn op_missing_required_argument(m: &mut M<'_>, s: &mut dyn Src) -> bool {
+    let sch = m.sch;
+    if s.chance(1, 4) {
+        return mutate_nth(&mut m.doc, sch, s, &|x| matches!(x, Site::Dirs { ds, .. } if ds.iter().any(|d| !d.args.is_empty())), &mut |x, _| {
+            if let Site::Dirs { ds, .. } = x {
+                if let Some(d) = ds.iter_mut().find(|d| !d.args.is_empty()) {
+                    d.args.clear();
+                }
+            }
+        });
+    }
+    let required = |d: &FieldDef, f: &Field| d.args.iter().any(|a| a.ty.is_nn() && a.default.is_none() && f.args.iter().any(|(n, _)| n.s == a.name));
+    mutate_nth(&mut m.doc, sch, s, &|x| matches!(x, Site::Field { f, def: Some(d), .. } if required(d, f)), &mut |x, s| {
+        if let Site::Field { f, def: Some(d), .. } = x {
+            let req: Vec<&ArgDef> = d.args.iter().filter(|a| a.ty.is_nn() && a.default.is_none()).collect();
+            let r = req[s.choose(req.len())].name.clone();
+            if s.bool() {
+                f.args.retain(|(n, _)| n.s != r);
+            } else if let Some((_, v)) = f.args.iter_mut().find(|(n, _)| n.s == r) {
+                v.v = Val::Null;
+            }
+        }
+    })
+}
+
+fn op_duplicate_argument(m: &mut M<'_>, s: &mut dyn Src) -> bool {
+    let sch = m.sch;
+    mutate_nth(&mut m.doc, sch, s, &|x| matches!(x, Site::Field { f, .. } if !f.args.is_empty()) || matches!(x, Site::Dirs { ds, .. } if ds.iter().any(|d| !d.args.is_empty())), &mut |x, s| match x {
+        Site::Field { f, .. } => {
+            let a = f.args[s.choose(f.args.len())].clone();
+            f.args.push(a);
+        }
+        Site::Dirs { ds, .. } => {
+            if let Some(d) = ds.iter_mut().find(|d| !d.args.is_empty()) {
+                let a = d.args[0].clone();
+                d.args.push(a);
+            }
+        }
+        _ => {}
+    })
+}
+
+fn op_duplicate_variable(m: &mut M<'_>, s: &mut dyn Src) -> bool {
+    let o = m.first_op();
+    if o.vars.is_empty() {
+        return false;
+    }
+    let v = o.vars[s.choose(o.vars.len())].clone();
+    o.vars.push(v);
+    true
+}
+
+fn op_duplicate_directive(m: &mut M<'_>, s: &mut dyn Src) -> bool {
+    let sch = m.sch;
+    mutate_nth(&mut m.doc, sch, s, &|x| matches!(x, Site::Dirs { location, .. } if ["FIELD", "INLINE_FRAGMENT", "FRAGMENT_SPREAD"].contains(location)), &mut |x, s| {
+        if let Site::Dirs { ds, .. } = x {
+            if ds.is_empty() {
+                let name = if s.bool() { "skip" } else { "include" };
+                ds.push(Directive::new(name, vec![("if", Val::Bool(name == "include"))]));
+            }
+            let d = ds[0].clone();
+            ds.push(d);
+        }
+    })
+}
+
+/// two selections that answer under one response key
+fn op_conflict(m: &mut M<'_>, s: &mut dyn Src) -> bool {
+    let sch = m.sch;
+    let cross = !m.excl.cross_condition_conflicts && s.bool();
+    let not_sub_root = |x: &Site<'_>| matches!(x, Site::Sel { root_of, .. } if *root_of != Some(OpKind::Subscription));
+    if !cross {
+        return match s.choose(2) {
+            // two fields of one parent under one key
+            0 => mutate_nth(&mut m.doc, sch, s, &|x| not_sub_root(x) && matches!(x, Site::Sel { parent, .. } if !plain_leaf_fields(sch, parent).is_empty()), &mut |x, s| {
+                if let Site::Sel { sel, parent, .. } = x {
+                    let lf = plain_leaf_fields(sch, parent);
+                    let a = lf[s.choose(lf.len())].name.clone();
+                    let b = lf[s.choose(lf.len())].name.clone();
+                    let b = if a == b { "__typename".to_string() } else { b };
+                    sel.items.push(Selection::Field(fld(&a, Some("zk"))));
+                    sel.items.push(Selection::Field(fld(&b, Some("zk"))));
+                }
+            }),
+            // one field with different arguments
+            _ => mutate_nth(&mut m.doc, sch, s, &|x| not_sub_root(x) && matches!(x, Site::Sel { sel, .. } if sel.items.iter().any(|i| matches!(i, Selection::Field(f) if !f.args.is_empty()))), &mut |x, s| {
+                if let Site::Sel { sel, .. } = x {
+                    let with_args: Vec<Field> = sel.items.iter().filter_map(|i| match i {
+                        Selection::Field(f) if !f.args.is_empty() => Some(f.clone()),
+                        _ => None,
+                    }).collect();
+                    let mut f = with_args[s.choose(with_args.len())].clone();
+                    f.alias = Some(Name::new(f.key().to_string()));
+                    f.directives.clear();
+                    let k = s.choose(f.args.len());
+                    if s.bool() {
+                        f.args.remove(k);
+                    } else {
+                        f.args[k].1 = PVal::new(Val::Null);
+                    }
+                    sel.items.push(Selection::Field(f));
+                }
+            }),
+        };
+    }
+    match s.choose(3) {
+        // behind two type conditions (valid when both are objects and the shapes agree)
+        0 => mutate_nth(&mut m.doc, sch, s, &|x| not_sub_root(x) && matches!(x, Site::Sel { parent, .. } if sch.possible_types(parent).len() >= 2), &mut |x, s| {
+            if let Site::Sel { sel, parent, .. } = x {
+                let pt = sch.possible_types(parent);
+                let a = pt[s.choose(pt.len())].clone();
+                let mut conds: Vec<String> = pt.iter().filter(|t| **t != a).cloned().collect();
+                if sch.kind(parent) == Some(Kind::Interface) {
+                    conds.push(parent.to_string());
+                }
+                let b = conds[s.choose(conds.len())].clone();
+                let (la, lb) = (plain_leaf_fields(sch, &a), plain_leaf_fields(sch, &b));
+                if la.is_empty() || lb.is_empty() {
+                    return;
+                }
+                let fa = la[s.choose(la.len())].name.clone();
+                let fb = lb[s.choose(lb.len())].name.clone();
+                sel.items.push(inline(Some(&a), SelSet::new(vec![Selection::Field(fld(&fa, Some("zk")))])));
+                sel.items.push(inline(Some(&b), SelSet::new(vec![Selection::Field(fld(&fb, Some("zk")))])));
+            }
+        }),
+        // the conflict sits in the merged sub-selections of one field selected twice
+        1 => mutate_nth(&mut m.doc, sch, s, &|x| not_sub_root(x) && matches!(x, Site::Sel { parent, .. } if plain_composite_fields(sch, parent).iter().any(|c| !sch.possible_types(c.ty.base()).is_empty())), &mut |x, s| {
+            if let Site::Sel { sel, parent, .. } = x {
+                let cf: Vec<FieldDef> = plain_composite_fields(sch, parent).into_iter().filter(|c| !sch.possible_types(c.ty.base()).is_empty()).collect();
+                let c = &cf[s.choose(cf.len())];
+                let t = c.ty.base();
+                let sub = |s: &mut dyn Src| -> SelSet {
+                    if sch.kind(t) == Some(Kind::Union) || plain_leaf_fields(sch, t).is_empty() {
+                        let pt = sch.possible_types(t);
+                        let o = pt[s.choose(pt.len())].clone();
+                        let lf = plain_leaf_fields(sch, &o);
+                        let n = if lf.is_empty() { "__typename".to_string() } else { lf[s.choose(lf.len())].name.clone() };
+                        SelSet::new(vec![inline(Some(&o), SelSet::new(vec![Selection::Field(fld(&n, Some("zq")))]))])
+                    } else {
+                        let lf = plain_leaf_fields(sch, t);
+                        SelSet::new(vec![Selection::Field(fld(&lf[s.choose(lf.len())].name, Some("zq")))])
+                    }
+                };
+                for _ in 0..2 {
+                    let mut f = fld(&c.name, Some("zk"));
+                    f.sel = sub(s);
+                    sel.items.push(Selection::Field(f));
+                }
+            }
+        }),
+        // one directly, one behind a fragment
+        _ => mutate_nth(&mut m.doc, sch, s, &|x| not_sub_root(x) && matches!(x, Site::Sel { parent, .. } if !plain_leaf_fields(sch, parent).is_empty()), &mut |x, s| {
+            if let Site::Sel { sel, parent, .. } = x {
+                let lf = plain_leaf_fields(sch, parent);
+                let a = lf[s.choose(lf.len())].name.clone();
+                let b = lf[s.choose(lf.len())].name.clone();
+                let cond = if s.bool() { Some(parent) } else { None };
+                sel.items.push(Selection::Field(fld(&a, Some("zk"))));
+                sel.items.push(inline(cond, SelSet::new(vec![Selection::Field(fld(&b, Some("zk")))])));
+            }
+        }),
+    }
+}
+
+/// change the declared type of a variable that is used somewhere (construct of C09-F1)
+fn op_variable_type(m: &mut M<'_>, s: &mut dyn Src) -> bool {
+    if m.excl.var_position {
+        return false;
+    }
+    let sch = m.sch;
+    let o = m.first_op();
+    if o.vars.is_empty() {
+        return false;
+    }
+    let k = s.choose(o.vars.len());
+    let old = o.vars[k].ty.ty.clone();
+    let base = old.base().to_string();
+    let others: Vec<&str> = ["Int", "Float", "String", "Boolean", "ID"].into_iter().filter(|b| *b != base).collect();
+    let new = match s.choose(4) {
+        // another named type in the same wrapping
+        0 => {
+            fn rebase(t: &Ty, b: &str) -> Ty {
+                match t {
+                    Ty::Named(_) => Ty::named(b),
+                    Ty::List(i) => Ty::list(rebase(i, b)),
+                    Ty::NonNull(i) => Ty::nn(rebase(i, b)),
+                }
+            }
+            rebase(&old, others[s.choose(others.len())])
+        }
+        // drop the outer non-null
+        1 if old.is_nn() => old.nullable().clone(),
+        // list of it / item of it
+        2 => match old.nullable() {
+            Ty::List(i) => (**i).clone(),
+            _ => Ty::list(old.clone()),
+        },
+        // nullable items where non-null items are expected
+        _ => match old.nullable() {
+            Ty::List(i) if i.is_nn() => Ty::list(i.nullable().clone()),
+            _ => Ty::list(old.clone()),
+        },
+    };
+    let name = o.vars[k].name.s.clone();
+    o.vars[k].ty.ty = new.clone();
+    // keep the request's variables coercible for the new type: regenerate default and value
+    if o.vars[k].default.is_some() {
+        o.vars[k].default = Some(PVal::new(gen_input_literal(sch, &new, s, 0)));
+    }
+    if m.vars.contains_key(&name) || (new.is_nn() && m.first_op().vars[k].default.is_none()) {
+        let lit = gen_input_literal(sch, &new, s, 0);
+        m.vars.insert(name, literal_to_runtime(&lit));
+    }
+    true
+}
+
+fn op_undefined_variable(m: &mut M<'_>, s: &mut dyn Src) -> bool {
+    let sch = m.sch;
+    if s.bool() {
+        let o = m.first_op();
+        if !o.vars.is_empty() {
+            let k = s.choose(o.vars.len());
+            o.vars.remove(k);
+            return true;
+        }
+    }
+    // use a variable nobody defines
+    mutate_nth(&mut m.doc, sch, s, &|x| matches!(x, Site::Value { konst: false, .. }), &mut |x, _| {
+        if let Site::Value { v, .. } = x {
+            v.v = Val::Var("zz9".into());
+        }
+    })
+}
+
+fn op_unused_variable(m: &mut M<'_>, s: &mut dyn Src) -> bool {
+    let provide = s.bool();
+    let o = m.first_op();
+    o.explicit = true;
+    o.vars.push(vardef("zz9", Ty::named("Int"), None));
+    if provide {
+        m.vars.insert("zz9".into(), CV::Int(1));
+    }
+    true
+}
+
+fn op_unused_fragment(m: &mut M<'_>, s: &mut dyn Src) -> bool {
+    let sch = m.sch;
+    let comps: Vec<&TypeDef> = sch.types.values().filter(|t| matches!(t.kind, Kind::Object | Kind::Interface | Kind::Union)).collect();
+    let t = comps[s.choose(comps.len())].name.clone();
+    m.doc.defs.push(frag("Zz9", &t, typename_sel()));
+    true
+}
+
+fn op_fragment_cycle(m: &mut M<'_>, s: &mut dyn Src) -> bool {
+    let sch = m.sch;
+    let existing: Vec<String> = m.doc.frags().map(|f| f.name.s.clone()).collect();
+    if !existing.is_empty() && s.bool() {
+        // an existing fragment spreads itself (directly, or through a new one)
+        let name = existing[s.choose(existing.len())].clone();
+        let via = s.bool();
+        let mut cond = String::new();
+        for d in m.doc.defs.iter_mut() {
+            if let Def::Frag(f) = d {
+                if f.name.s == name {
+                    cond = f.cond.s.clone();
+                    f.sel.items.push(spread(if via { "Zc2" } else { &name }));
+                }
+            }
+        }
+        if via {
+            m.doc.defs.push(frag("Zc2", &cond, SelSet::new(vec![Selection::Field(Field::new("__typename")), spread(&name)])));
+        }
+        return true;
+    }
+    let o = m.first_op();
+    if o.kind == OpKind::Subscription {
+        return false;
+    }
+    let root = sch.root(o.kind).unwrap_or(&sch.query).to_string();
+    o.sel.items.push(spread("Zc1"));
+    m.doc.defs.push(frag("Zc1", &root, SelSet::new(vec![Selection::Field(Field::new("__typename")), spread("Zc1")])));
+    true
+}
+
+fn op_impossible_spread(m: &mut M<'_>, s: &mut dyn Src) -> bool {
+    let sch = m.sch;
+    let disjoint = |parent: &str| -> Vec<String> {
+        let pp = sch.possible_types(parent);
+        sch.types.values().filter(|t| matches!(t.kind, Kind::Object | Kind::Interface | Kind::Union)).filter(|t| !sch.possible_types(&t.name).iter().any(|x| pp.contains(x))).map(|t| t.name.clone()).collect()
+    };
+    let named = s.bool();
+    let mut new_frag: Option<Def> = None;
+    let ok = mutate_nth(&mut m.doc, sch, s, &|x| matches!(x, Site::Sel { parent, .. } if !disjoint(parent).is_empty()), &mut |x, s| {
+        if let Site::Sel { sel, parent, .. } = x {
+            let d = disjoint(parent);
+            let t = d[s.choose(d.len())].clone();
+            if named {
+                sel.items.push(spread("Zi1"));
+                new_frag = Some(frag("Zi1", &t, typename_sel()));
+            } else {
+                sel.items.push(inline(Some(&t), typename_sel()));
+            }
+        }
+    });
+    if let Some(f) = new_frag {
+        m.doc.defs.push(f);
+    }
+    ok
+}
+
+fn op_fragment_on_leaf(m: &mut M<'_>, s: &mut dyn Src) -> bool {
+    let sch = m.sch;
+    let mut non_composite: Vec<String> = vec!["Int".into(), "String".into()];
+    non_composite.extend(sch.types.values().filter(|t| matches!(t.kind, Kind::Enum | Kind::Input | Kind::Scalar)).map(|t| t.name.clone()));
+    let t = non_composite[s.choose(non_composite.len())].clone();
+    if s.bool() {
+        let existing = m.doc.frags().count();
+        if existing > 0 {
+            let k = s.choose(existing);
+            if let Some(Def::Frag(f)) = m.doc.defs.iter_mut().filter(|d| matches!(d, Def::Frag(_))).nth(k) {
+                f.cond = Name::new(t);
+            }
+            return true;
+        }
+    }
+    mutate_nth(&mut m.doc, sch, s, &|x| matches!(x, Site::Sel { root_of, .. } if *root_of != Some(OpKind::Subscription)), &mut |x, _| {
+        if let Site::Sel { sel, .. } = x {
+            sel.items.push(inline(Some(&t), typename_sel()));
+        }
+    })
+}
+
+fn op_leaf_selection(m: &mut M<'_>, s: &mut dyn Src) -> bool {
+    let sch = m.sch;
+    mutate_nth(&mut m.doc, sch, s, &|x| matches!(x, Site::Field { def: Some(_), .. }), &mut |x, _| {
+        if let Site::Field { f, def: Some(d), .. } = x {
+            if sch.is_leaf(d.ty.base()) {
+                f.sel = typename_sel();
+            } else {
+                f.sel = SelSet::empty();
+            }
+        }
+    })
+}
+
+fn op_misplaced_directive(m: &mut M<'_>, s: &mut dyn Src) -> bool {
+    let sch = m.sch;
+    mutate_nth(&mut m.doc, sch, s, &|x| matches!(x, Site::Dirs { .. }), &mut |x, s| {
+        if let Site::Dirs { ds, location } = x {
+            let executable = ["FIELD", "INLINE_FRAGMENT", "FRAGMENT_SPREAD"].contains(&location);
+            let d = if executable {
+                // type-system directives in an executable location
+                match s.choose(3) {
+                    0 => Directive::new("deprecated", vec![]),
+                    1 => Directive::new("oneOf", vec![]),
+                    _ => Directive::new("specifiedBy", vec![("url", Val::Str("u".into()))]),
+                }
+            } else {
+                let name = if s.bool() { "skip" } else { "include" };
+                Directive::new(name, vec![("if", Val::Bool(name == "include"))])
+            };
+            ds.push(d);
+        }
+    })
+}
+
+/// more than one root field of a subscription, or an introspection field there (construct of C09-F3)
+fn op_subscription_roots(m: &mut M<'_>, s: &mut dyn Src) -> bool {
+    let sch = m.sch;
+    let root = match &sch.subscription {
+        Some(r) => r.clone(),
+        None => return false,
+    };
+    let excl = m.excl.subscription_roots;
+    let o = m.first_op();
+    if o.kind != OpKind::Subscription {
+        return false;
+    }
+    if excl || s.chance(1, 4) {
+        // the single root field is an introspection field
+        o.sel.items = vec![Selection::Field(Field::new("__typename"))];
+        return true;
+    }
+    let first = match o.sel.items.first() {
+        Some(Selection::Field(f)) => f.clone(),
+        _ => return false,
+    };
+    let mut second = first.clone();
+    second.alias = Some(Name::new("zz2"));
+    second.directives.clear();
+    match s.choose(3) {
+        0 => o.sel.items.push(Selection::Field(second)),
+        1 => o.sel.items.push(inline(if s.bool() { Some(&root) } else { None }, SelSet::new(vec![Selection::Field(second)]))),
+        _ => {
+            o.sel.items.push(spread("Zs1"));
+            m.doc.defs.push(frag("Zs1", &root, SelSet::new(vec![Selection::Field(second)])));
+        }
+    }
+    true
+}
+
+fn op_non_input_variable(m: &mut M<'_>, s: &mut dyn Src) -> bool {
+    let sch = m.sch;
+    let comps: Vec<String> = sch.types.values().filter(|t| matches!(t.kind, Kind::Object | Kind::Interface | Kind::Union)).map(|t| t.name.clone()).collect();
+    let t = comps[s.choose(comps.len())].clone();
+    let wrap = s.choose(3);
+    let ty = match wrap {
+        0 => Ty::named(&t),
+        1 => Ty::list(Ty::named(&t)),
+        _ => Ty::nn(Ty::named(&t)),
+    };
+    let o = m.first_op();
+    o.explicit = true;
+    if !o.vars.is_empty() && s.bool() {
+        let k = s.choose(o.vars.len());
+        o.vars[k].ty.ty = ty;
+        o.vars[k].default = None;
+    } else {
+        // declared and used (as the argument of a directive, so only its type is wrong)
+        o.vars.push(vardef("zz9", ty, None));
+        let root_sub = o.kind == OpKind::Subscription;
+        if let Some(Selection::Field(f)) = o.sel.items.iter_mut().find(|i| matches!(i, Selection::Field(_))) {
+            let free = ["skip", "include"].into_iter().find(|n| !f.directives.iter().any(|d| d.name.s == *n));
+            match free {
+                Some(n) if !root_sub => f.directives.push(Directive::new(n, vec![("if", Val::Var("zz9".into()))])),
+                _ => f.args.push((Name::new("zz9"), PVal::new(Val::Var("zz9".into())))),
+            }
+        }
+    }
+    true
+}
+
+fn op_invalid_default(m: &mut M<'_>, s: &mut dyn Src) -> bool {
+    let snapshot = M { sch: m.sch, doc: Doc::default(), vars: IndexMap::new(), op_name: None, extra_text: String::new(), extra_defs: 0, excl: m.excl };
+    let o = m.first_op();
+    if o.vars.is_empty() {
+        return false;
+    }
+    let k = s.choose(o.vars.len());
+    let ty = o.vars[k].ty.ty.clone();
+    let cur = o.vars[k].default.as_ref().map(|d| d.v.clone()).unwrap_or(Val::Null);
+    match wrong_literal(&snapshot, &ty, &cur, s) {
+        Some(w) => {
+            o.vars[k].default = Some(PVal::new(w));
+            true
+        }
+        None => false,
+    }
+}
+
+/// a JSON value that variable coercion must reject for `ty` (None: no such value in this domain)
+fn wrong_runtime(sch: &Sch, ty: &Ty, s: &mut dyn Src) -> Option<CV> {
+    if ty.is_nn() && s.chance(1, 4) {
+        return Some(CV::Null);
+    }
+    match ty.nullable() {
+        Ty::NonNull(_) => None,
+        Ty::List(inner) => {
+            let w = wrong_runtime(sch, inner, s)?;
+            Some(if s.bool() { CV::List(vec![w]) } else { w })
+        }
+        Ty::Named(n) => {
+            let xs: Vec<CV> = match n.as_str() {
+                "Int" => vec![CV::Str("1".into()), CV::Float(1.5), CV::Bool(true), CV::Int(2147483648), CV::Int(-2147483649), CV::Obj(IndexMap::new())],
+                "Float" => vec![CV::Str("1.5".into()), CV::Bool(false), CV::List(vec![CV::Str("x".into())])],
+                "String" => vec![CV::Int(1), CV::Float(0.5), CV::Bool(true), CV::Obj(IndexMap::new())],
+                "Boolean" => vec![CV::Int(1), CV::Str("true".into()), CV::Float(0.5)],
+                "ID" => vec![CV::Float(1.5), CV::Bool(true), CV::Obj(IndexMap::new())],
+                _ => {
+                    let td = sch.ty(n)?;
+                    match td.kind {
+                        Kind::Enum => vec![CV::Str("NOPE_9".into()), CV::Int(0), CV::Bool(true)],
+                        Kind::Input => {
+                            let mut o = match literal_to_runtime(&gen_input_literal(sch, &Ty::named(n), s, 2)) {
+                                CV::Obj(o) => o,
+                                _ => IndexMap::new(),
+                            };
+                            let req: Vec<&ArgDef> = td.input_fields.iter().filter(|f| f.ty.is_nn() && f.default.is_none()).collect();
+                            let mut kinds = vec![0u8, 1];
+                            if !td.one_of && !req.is_empty() {
+                                kinds.push(2);
+                            }
+                            if td.one_of {
+                                kinds.extend([3, 4]);
+                            }
+                            match kinds[s.choose(kinds.len())] {
+                                0 => return Some(if s.bool() { CV::Int(1) } else { CV::Str("x".into()) }),
+                                1 => {
+                                    o.insert("zz9".into(), CV::Int(1));
+                                }
+                                2 => {
+                                    let r = req[s.choose(req.len())].name.clone();
+                                    o.shift_remove(&r);
+                                }
+                                3 => o.clear(),
+                                _ => {
+                                    let f = &td.input_fields[s.choose(td.input_fields.len())];
+                                    o.clear();
+                                    o.insert(f.name.clone(), CV::Null);
+                                }
+                            }
+                            vec![CV::Obj(o)]
+                        }
+                        _ => return None,
+                    }
+                }
+            };
+            let i = s.choose(xs.len());
+            Some(xs[i].clone())
+        }
+    }
+}
+
+/// variable values that do not coerce (§6.1.2)
+fn op_variable_values(m: &mut M<'_>, s: &mut dyn Src) -> bool {
+    let sch = m.sch;
+    let vars: Vec<VarDef> = m.first_op().vars.clone();
+    if vars.is_empty() {
+        return false;
+    }
+    let vd = &vars[s.choose(vars.len())];
+    if vd.ty.ty.is_nn() && vd.default.is_none() && s.chance(1, 3) {
+        // a required variable is not provided
+        m.vars.shift_remove(&vd.name.s);
+        return true;
+    }
+    match wrong_runtime(sch, &vd.ty.ty, s) {
+        Some(w) => {
+            m.vars.insert(vd.name.s.clone(), w);
+            true
+        }
+        None => false,
+    }
+}
+
+fn op_operations(m: &mut M<'_>, s: &mut dyn Src) -> bool {
+    let first = m.first_op().clone();
+    let mut second = OpDef { pos: Pos::default(), explicit: true, kind: OpKind::Query, name: None, vars: vec![], directives: vec![], sel: typename_sel() };
+    match s.choose(3) {
+        // the same name twice
+        0 => {
+            if first.name.is_none() {
+                let o = m.first_op();
+                o.explicit = true;
+                o.name = Some(Name::new("Op"));
+                m.op_name = Some("Op".into());
+            }
+            second.name = Some(Name::new("Op"));
+        }
+        // an anonymous operation next to another one
+        1 => {
+            if first.name.is_none() {
+                second.name = Some(Name::new("Other"));
+            }
+        }
+        _ => {
+            second.explicit = false;
+            if first.name.is_none() {
+                let o = m.first_op();
+                o.explicit = true;
+                o.name = Some(Name::new("Op"));
+                m.op_name = Some("Op".into());
+            }
+        }
+    }
+    if s.bool() {
+        m.doc.defs.push(Def::Op(second));
+    } else {
+        m.doc.defs.insert(0, Def::Op(second));
+    }
+    true
+}
+
+fn op_duplicate_fragment(m: &mut M<'_>, s: &mut dyn Src) -> bool {
+    let frs: Vec<FragDef> = m.doc.frags().cloned().collect();
+    if frs.is_empty() {
+        return false;
+    }
+    let mut f = frs[s.choose(frs.len())].clone();
+    if s.bool() {
+        f.sel = typename_sel();
+    }
+    m.doc.defs.push(Def::Frag(f));
+    true
+}
+
+fn op_type_system_definition(m: &mut M<'_>, s: &mut dyn Src) -> bool {
+    let defs = [" type Zz9 { a: Int }", " extend type Query { zz9: Int }", " scalar Zz9", " schema { query: Query }", " directive @zz9 on FIELD", " enum Zz9 { A }"];
+    m.extra_text = defs[s.choose(defs.len())].to_string();
+    m.extra_defs = 1;
+    true
+}
+
+fn op_missing_root_type(m: &mut M<'_>, s: &mut dyn Src) -> bool {
+    let sch = m.sch;
+    let mut missing = vec![];
+    if sch.mutation.is_none() {
+        missing.push(OpKind::Mutation);
+    }
+    if sch.subscription.is_none() {
+        missing.push(OpKind::Subscription);
+    }
+    if missing.is_empty() {
+        return false;
+    }
+    let k = missing[s.choose(missing.len())];
+    let o = m.first_op();
+    o.explicit = true;
+    o.kind = k;
+    true
+}
+
+// operators that are expected to keep a document valid (the reference decides)
+
+fn v_second_operation(m: &mut M<'_>, s: &mut dyn Src) -> bool {
+    let sch = m.sch;
+    let first = m.first_op();
+    first.explicit = true;
+    if first.name.is_none() {
+        first.name = Some(Name::new("Op"));
+    }
+    m.op_name = Some("Op".into());
+    let lf = plain_leaf_fields(sch, &sch.query);
+    let sel = if lf.is_empty() { typename_sel() } else { SelSet::new(vec![Selection::Field(fld(&lf[s.choose(lf.len())].name, None))]) };
+    let second = OpDef { pos: Pos::default(), explicit: true, kind: OpKind::Query, name: Some(Name::new("Other")), vars: vec![], directives: vec![], sel };
+    if s.bool() {
+        m.doc.defs.push(Def::Op(second));
+    } else {
+        m.doc.defs.insert(0, Def::Op(second));
+    }
+    true
+}
+
+fn v_introspection(m: &mut M<'_>, s: &mut dyn Src) -> bool {
+    let sch = m.sch;
+    let o = m.first_op();
+    if o.kind != OpKind::Query {
+        return false;
+    }
+    let name_kind = || SelSet::new(vec![Selection::Field(Field::new("name")), Selection::Field(Field::new("kind"))]);
+    let f = match s.choose(3) {
+        0 => {
+            let mut f = fld("__schema", Some("zs"));
+            let mut q = Field::new("queryType");
+            q.sel = name_kind();
+            let mut t = Field::new("types");
+            t.sel = name_kind();
+            f.sel = SelSet::new(vec![Selection::Field(q), Selection::Field(t)]);
+            f
+        }
+        1 => {
+            let mut f = fld("__type", Some("zt"));
+            let names: Vec<&String> = sch.types.keys().collect();
+            f.args.push((Name::new("name"), PVal::new(Val::Str(names[s.choose(names.len())].clone()))));
+            let mut fs = Field::new("fields");
+            fs.sel = SelSet::new(vec![Selection::Field(Field::new("name"))]);
+            f.sel = SelSet::new(vec![Selection::Field(Field::new("name")), Selection::Field(fs), inline(Some("__Type"), SelSet::new(vec![Selection::Field(Field::new("kind"))]))]);
+            f
+        }
+        _ => {
+            let mut f = fld("__schema", Some("zd"));
+            let mut d = Field::new("directives");
+            let mut a = Field::new("args");
+            a.sel = SelSet::new(vec![Selection::Field(Field::new("name"))]);
+            d.sel = SelSet::new(vec![Selection::Field(Field::new("name")), Selection::Field(Field::new("locations")), Selection::Field(a)]);
+            f.sel = SelSet::new(vec![Selection::Field(d)]);
+            f
+        }
+    };
+    o.sel.items.push(Selection::Field(f));
+    true
+}
+
+fn v_extra_variable_value(m: &mut M<'_>, s: &mut dyn Src) -> bool {
+    m.vars.insert("zz_extra".into(), if s.bool() { CV::Int(1) } else { CV::Obj(IndexMap::new()) });
+    true
+}
+
+/// a nullable variable with a non-null default where a non-null value is expected (§5.8.5 default value rule)
+fn v_defaulted_nullable_variable(m: &mut M<'_>, s: &mut dyn Src) -> bool {
+    let sch = m.sch;
+    let o = m.first_op();
+    let cands: Vec<usize> = o.vars.iter().enumerate().filter(|(_, v)| v.ty.ty.is_nn()).map(|(i, _)| i).collect();
+    if cands.is_empty() {
+        return false;
+    }
+    let k = cands[s.choose(cands.len())];
+    let inner = o.vars[k].ty.ty.nullable().clone();
+    let d = gen_input_literal(sch, &Ty::nn(inner.clone()), s, 0);
+    o.vars[k].ty.ty = inner;
+    o.vars[k].default = Some(PVal::new(d));
+    true
+}
+
+/// literal items / input fields replaced by fresh variables of exactly the expected type
+fn v_nested_variable(m: &mut M<'_>, s: &mut dyn Src) -> bool {
+    let sch = m.sch;
+    let mut new: Option<(Ty, Val)> = None;
+    let ok = mutate_nth(&mut m.doc, sch, s, &|x| matches!(x, Site::Value { v, konst: false, ty } if !matches!(v.v, Val::Var(_)) && sch.kind(ty.base()).is_some()), &mut |x, _| {
+        if let Site::Value { v, ty, .. } = x {
+            new = Some((ty.clone(), v.v.clone()));
+            v.v = Val::Var("zn1".into());
+        }
+    });
+    if let Some((ty, lit)) = new {
+        // the literal may hold variables itself: provide a fresh constant instead
+        let lit = if format!("{:?}", lit).contains("Var(") { gen_input_literal(sch, &ty, s, 1) } else { lit };
+        let o = m.first_op();
+        o.explicit = true;
+        o.vars.push(vardef("zn1", ty, None));
+        m.vars.insert("zn1".into(), literal_to_runtime(&lit));
+    }
+    ok
+}
+
+/// `[x]` written as `x` (list input coercion)
+fn v_single_value_for_list(m: &mut M<'_>, s: &mut dyn Src) -> bool {
+    let sch = m.sch;
+    mutate_nth(&mut m.doc, sch, s, &|x| matches!(x, Site::Value { v, ty, .. } if ty.is_list() && matches!(&v.v, Val::List(l) if l.len() == 1 && !matches!(l[0].v, Val::List(_) | Val::Null | Val::Var(_)))), &mut |x, _| {
+        if let Site::Value { v, .. } = x {
+            if let Val::List(l) = &v.v {
+                let inner = l[0].v.clone();
+                v.v = inner;
+            }
+        }
+    })
+}
+
+const INVALIDATING: [(&str, Operator); 26] = [
+    ("unknown-field", op_unknown_field),
+    ("unknown-argument", op_unknown_argument),
+    ("unknown-type", op_unknown_type),
+    ("unknown-directive", op_unknown_directive),
+    ("unknown-fragment", op_unknown_fragment),
+    ("wrong-literal", op_wrong_literal),
+    ("missing-required-argument", op_missing_required_argument),
+    ("duplicate-argument", op_duplicate_argument),
+    ("duplicate-variable", op_duplicate_variable),
+    ("duplicate-directive", op_duplicate_directive),
+    ("conflicting-response-keys", op_conflict),
+    ("variable-type", op_variable_type),
+    ("undefined-variable", op_undefined_variable),
+    ("unused-variable", op_unused_variable),
+    ("unused-fragment", op_unused_fragment),
+    ("fragment-cycle", op_fragment_cycle),
+    ("impossible-spread", op_impossible_spread),
+    ("fragment-on-leaf", op_fragment_on_leaf),
+    ("leaf-selection", op_leaf_selection),
+    ("misplaced-directive", op_misplaced_directive),
+    ("subscription-roots", op_subscription_roots),
+    ("non-input-variable", op_non_input_variable),
+    ("invalid-default", op_invalid_default),
+    ("variable-values", op_variable_values),
+    ("operations", op_operations),
+    ("duplicate-fragment", op_duplicate_fragment),
+];
+const INVALIDATING_RARE: [(&str, Operator); 2] = [("type-system-definition", op_type_system_definition), ("missing-root-type", op_missing_root_type)];
+const PRESERVING: [(&str, Operator); 6] = [
+    ("second-operation", v_second_operation),
+    ("introspection", v_introspection),
+    ("extra-variable-value", v_extra_variable_value),
+    ("defaulted-nullable-variable", v_defaulted_nullable_variable),
+    ("nested-variable", v_nested_variable),
+    ("single-value-for-list", v_single_value_for_list),
+];
+
+/// probe operator: break one input-object literal in the way `excl.force_input_kind` says
+fn op_probe_input_object(m: &mut M<'_>, s: &mut dyn Src) -> bool {
+    let sch = m.sch;
+    let is_input = |ty: &Ty| matches!(ty.nullable(), Ty::Named(n) if sch.kind(n) == Some(Kind::Input));
+    // make sure an input-object argument is given somewhere
+    mutate_nth(&mut m.doc, sch, s, &|x| matches!(x, Site::Field { f, def: Some(d), .. } if d.args.iter().any(|a| is_input(&a.ty) && !f.args.iter().any(|(n, _)| n.s == a.name))), &mut |x, s| {
+        if let Site::Field { f, def: Some(d), .. } = x {
+            for a in d.args.iter().filter(|a| is_input(&a.ty)) {
+                if !f.args.iter().any(|(n, _)| n.s == a.name) {
+                    f.args.push((Name::new(a.name.clone()), PVal::new(gen_input_literal(sch, &Ty::nn(a.ty.clone()), s, 0))));
+                }
+            }
+        }
+    });
+    let snapshot = M { sch, doc: Doc::default(), vars: IndexMap::new(), op_name: None, extra_text: String::new(), extra_defs: 0, excl: m.excl };
+    let mut changed = false;
+    mutate_nth(&mut m.doc, sch, s, &|x| matches!(x, Site::Value { ty, v, .. } if is_input(ty) && !matches!(v.v, Val::Var(_))), &mut |x, s| {
+        if let Site::Value { v, ty, .. } = x {
+            if let Some(w) = wrong_literal(&snapshot, ty, &v.v, s) {
+                v.v = w;
+                changed = true;
+            }
+        }
+    });
+    changed
+}
+
+// ---------------------------------------------------------------------------------------------------------------
+// one case
+
+enum Target<'a> {
+    Dynamic,
+    Static { schema: &'a st::S, tap: &'a Tap, sch: &'a Sch },
+}
+
+#[derive(Clone)]
+struct Plan {
+    excl: Excl,
+    /// (finding id, its quirk alone) for every OPEN finding
+    open: Vec<(String, Quirks)>,
+    /// probe streams: always apply this operator
+    force: Option<(&'static str, Operator)>,
+    only_subscriptions: bool,
+    omitted_var_with_arg_default: bool,
+}
+
+fn all_quirks(open: &[(String, Quirks)]) -> Quirks {
+    let mut q = Quirks::default();
+    for (_, x) in open {
+        q.no_variable_usage_check |= x.no_variable_usage_check;
+        q.merge_same_condition_only |= x.merge_same_condition_only;
+        q.no_subscription_root_count |= x.no_subscription_root_count;
+        q.last_duplicate_input_field_wins |= x.last_duplicate_input_field_wins;
+        q.non_object_for_input_object_accepted |= x.non_object_for_input_object_accepted;
+    }
+    q
+}
+
+fn selected_kind(doc: &Doc, op_name: Option<&str>) -> Option<OpKind> {
+    let ops: Vec<&OpDef> = doc.ops().collect();
+    match op_name {
+        None if ops.len() == 1 => Some(ops[0].kind),
+        None => None,
+        Some(n) => ops.iter().find(|o| o.name.as_ref().map(|x| x.s.as_str()) == Some(n)).map(|o| o.kind),
+    }
+}
+
+fn errors_text(rs: &[Response]) -> String {
+    rs.iter().flat_map(|r| r.errors.iter()).map(|e| format!("{} @{:?}", e.message, e.locations.iter().map(|l| (l.line, l.column)).collect::<Vec<_>>())).collect::<Vec<_>>().join(" | ")
+}
+
+fn run_case(s: &mut dyn Src, target: &Target<'_>, plan: &Plan) -> Case {
+    // schema and data
+    let gen_sch_world;
+    let (sch, world): (&Sch, Option<&World>) = match target {
+        Target::Static { sch, .. } => (sch, None),
+        Target::Dynamic => {
+            let sch = gen_sch(s, &SchCfg { subscription: true, ..SchCfg::default() });
+            let world = gen_world(&sch, s, &WorldCfg { null_composite_items: false, ..WorldCfg::default() });
+            gen_sch_world = (sch, world);
+            (&gen_sch_world.0, Some(&gen_sch_world.1))
+        }
+    };
+    // a valid request
+    let mut tcfg = TypedCfg::default();
+    tcfg.omitted_var_with_arg_default = plan.omitted_var_with_arg_default;
+    tcfg.ops = if plan.only_subscriptions { vec![OpKind::Subscription] } else { vec![OpKind::Query, OpKind::Query, OpKind::Mutation, OpKind::Subscription] };
+    let mut td = gen_typed_doc(sch, s, &tcfg);
+    let mut stripped = false;
+    if let Some(Def::Op(o)) = td.doc.defs.first_mut() {
+        if o.kind == OpKind::Subscription {
+            // the October 2021 text evaluates @skip/@include at a subscription's root with no variables: not generated
+            for it in o.sel.items.iter_mut() {
+                if let Selection::Field(f) = it {
+                    stripped |= !f.directives.is_empty();
+                    f.directives.clear();
+                }
+            }
+        }
+    }
+    if stripped {
+        let text = td.doc.defs.iter().map(|d| match d {
+            Def::Op(o) => format!("{:?}", o.sel),
+            Def::Frag(f) => format!("{:?}", f.sel),
+        }).collect::<Vec<_>>().join(" ");
+        if let Some(Def::Op(o)) = td.doc.defs.first_mut() {
+            o.vars.retain(|v| text.contains(&format!("Var(\"{}\")", v.name.s)));
+            let keep: Vec<String> = o.vars.iter().map(|v| v.name.s.clone()).collect();
+            td.vars.retain(|k, _| keep.contains(k));
+        }
+    }
+    let had_vars = !td.vars.is_empty() || td.doc.ops().any(|o| !o.vars.is_empty());
+    let had_frags = td.stats.named_fragments + td.stats.interface_cond + td.stats.object_cond + td.stats.union_cond_in_object > 0;
+    let mut m = M { sch, doc: td.doc, vars: td.vars, op_name: td.op_name, extra_text: String::new(), extra_defs: 0, excl: plan.excl };
+    // mutation
+    let mut labels: Vec<&'static str> = vec![];
+    let apply_from = |m: &mut M<'_>, s: &mut dyn Src, table: &[(&'static str, Operator)], start: usize, labels: &mut Vec<&'static str>| {
+        for k in 0..table.len() {
+            let (name, f) = table[(start + k) % table.len()];
+            if f(m, s) {
+                labels.push(name);
+                return;
+            }
+        }
+    };
+    match plan.force {
+        Some((name, f)) => {
+            if !f(&mut m, s) {
+                return Case::discard("probe operator not applicable");
+            }
+            labels.push(name);
+        }
+        None => match s.weighted(&[5, 8, 2]) {
+            0 => {}
+            1 => {
+                let n = if s.chance(1, 8) { 2 } else { 1 };
+                for _ in 0..n {
+                    let r = s.choose(2 * INVALIDATING.len() + INVALIDATING_RARE.len());
+                    if r < 2 * INVALIDATING.len() {
+                        apply_from(&mut m, s, &INVALIDATING, r / 2, &mut labels);
+                    } else {
+                        apply_from(&mut m, s, &INVALIDATING_RARE, r - 2 * INVALIDATING.len(), &mut labels);
+                    }
+                }
+            }
+            _ => {
+                let r = s.choose(PRESERVING.len());
+                apply_from(&mut m, s, &PRESERVING, r, &mut labels);
+            }
+        },
+    }
+    let mut text = print_plain(&mut m.doc);
+    text.push_str(&m.extra_text);
+    let vars_json = serde_json::Value::Object(m.vars.iter().map(|(k, v)| (k.clone(), v.to_json())).collect());
+    // the specification's verdict
+    let inp = Input { sch, doc: &m.doc, op_name: m.op_name.as_deref(), vars: &m.vars, non_executable_defs: m.extra_defs, custom_scalar_ok: &custom_scalar_ok };
+    let spec: Report = validate_full(&inp, Quirks::default());
+    if !spec.dont_care.is_empty() {
+        return Case::discard(format!("don't care: {}", spec.dont_care[0]));
+    }
+    let rules = spec.rules();
+    let rendered = format!(
+        "target: {}\nquery: {}\nvariables: {}\noperationName: {:?}\noperators: {:?}\nreference: {}\nschema: {}",
+        if world.is_some() { "dynamic" } else { "static" },
+        text,
+        vars_json,
+        m.op_name,
+        labels,
+        if rules.is_empty() { "valid".to_string() } else { spec.violations.iter().map(|v| format!("[{}] {}", v.rule, v.msg)).collect::<Vec<_>>().join("; ") },
+        if world.is_some() { show_sch(sch) } else { "(static schema of c09.rs)".to_string() },
+    );
+    // the implementation
+    let stream = selected_kind(&m.doc, m.op_name.as_deref()) == Some(OpKind::Subscription);
+    let req = request(&text, &m.vars, m.op_name.as_deref());
+    let out = match target {
+        Target::Static { schema, tap, .. } => run_static(schema, tap, req, stream),
+        Target::Dynamic => match run_dynamic(sch, world.unwrap(), req, stream) {
+            Ok(o) => o,
+            Err(e) => return Case::fail(rendered, format!("HARNESS: {}", e)),
+        },
+    };
+    let stage = match &out.validation {
+        None => "validation not reached",
+        Some(Ok(())) => "validation passed",
+        Some(Err(_)) => "validation failed",
+    };
+    let n_errors: usize = out.responses.iter().map(|r| r.errors.len()).sum();
+    let mut case = if rules.is_empty() {
+        if out.validation.as_ref().map_or(true, |v| v.is_err()) || n_errors > 0 {
+            Case::fail(rendered, format!("a valid request was not executed cleanly ({}): {}", stage, errors_text(&out.responses)))
+        } else {
+            Case::pass(rendered).class("valid").class_if(!labels.is_empty(), "valid-after-operator").class_if(had_vars && had_frags && labels.is_empty(), "valid-with-variables-and-fragments").nontrivial(had_vars && had_frags)
+        }
+    } else {
+        let unlocated: Vec<String> = out.responses.iter().flat_map(|r| r.errors.iter()).filter(|e| e.locations.is_empty()).map(|e| e.message.clone()).collect();
+        let verdict: Result<(), String> = if out.responses.is_empty() {
+            Err("no response".into())
+        } else if n_errors == 0 {
+            Err(format!("an invalid request was accepted ({})", stage))
+        } else if out.resolver_calls > 0 {
+            Err(format!("{} resolver calls although the request is invalid ({}): {}", out.resolver_calls, stage, errors_text(&out.responses)))
+        } else if !unlocated.is_empty() {
+            Err(format!("rejected with an error without location ({}): {:?}", stage, unlocated))
+        } else {
+            Ok(())
+        };
+        match verdict {
+            Ok(()) => Case::pass(rendered).nontrivial(rules.len() == 1),
+            Err(why) => {
+                // is this exactly what the open findings predict: validation passes?
+                let relevant: Vec<&(String, Quirks)> = plan.open.iter().filter(|(_, q)| validate_full(&inp, *q).violations.len() < spec.violations.len()).collect();
+                let owned: Vec<(String, Quirks)> = relevant.iter().map(|x| (*x).clone()).collect();
+                let predicted_valid = !owned.is_empty() && validate_full(&inp, all_quirks(&owned)).is_valid();
+                if predicted_valid && matches!(out.validation, Some(Ok(()))) {
+                    Case::known(rendered, owned.iter().map(|(id, _)| id.clone()).collect())
+                } else {
+                    Case::fail(rendered, why)
+                }
+            }
+        }
+    };
+    for r in &rules {
+        case = case.class(format!("rule:{}", r));
+    }
+    case.class_if(rules.len() == 1, "invalid-by-one-rule").class_if(rules.len() > 1, "invalid-by-several-rules").class(if world.is_some() { "dynamic-schema" } else { "static-schema" })
+}
+
+// ---------------------------------------------------------------------------------------------------------------
+// the static target and its mirror
+
+fn type_text(t: &serde_json::Value) -> String {
+    match t["kind"].as_str() {
+        Some("NON_NULL") => format!("{}!", type_text(&t["ofType"])),
+        Some("LIST") => format!("[{}]", type_text(&t["ofType"])),
+        _ => t["name"].as_str().unwrap_or("?").to_string(),
+    }
+}
+
+/// the mirror must agree with the schema's own introspection; the served directives must be the specification's
+fn check_mirror(schema: &st::S, sch: &Sch) -> Result<(), String> {
+    let q = "{ __schema { queryType{name} mutationType{name} subscriptionType{name} \
+             types { name kind fields(includeDeprecated:true){ name type{kind name ofType{kind name ofType{kind name ofType{kind name ofType{kind name}}}}} args{ name defaultValue type{kind name ofType{kind name ofType{kind name ofType{kind name ofType{kind name}}}}} } } \
+                     inputFields{ name defaultValue type{kind name ofType{kind name ofType{kind name ofType{kind name}}}} } enumValues{name} possibleTypes{name} interfaces{name} } \
+             directives { name locations isRepeatable args{ name type{kind name ofType{kind name}} } } } }";
+    let r = vcore::det::block_on(schema.execute(q));
+    if !r.errors.is_empty() {
+        return Err(format!("introspection failed: {:?}", r.errors));
+    }
+    let j = r.data.into_json().map_err(|e| e.to_string())?;
+    let sc = &j["__schema"];
+    if sc["queryType"]["name"].as_str() != Some(&sch.query) || sc["mutationType"]["name"].as_str() != sch.mutation.as_deref() || sc["subscriptionType"]["name"].as_str() != sch.subscription.as_deref() {
+        return Err("root types differ".into());
+    }
+    let mut seen = 0;
+    for t in sc["types"].as_array().ok_or("types")? {
+        let name = t["name"].as_str().unwrap_or("");
+        if name.starts_with("__") || BUILTIN_SCALARS.contains(&name) {
+            continue;
+        }
+        seen += 1;
+        let td = sch.ty(name).ok_or(format!("type {} missing in the mirror", name))?;
+        let kind = match td.kind {
+            Kind::Scalar => "SCALAR",
+            Kind::Object => "OBJECT",
+            Kind::Interface => "INTERFACE",
+            Kind::Union => "UNION",
+            Kind::Enum => "ENUM",
+            Kind::Input => "INPUT_OBJECT",
+        };
+        if t["kind"].as_str() != Some(kind) {
+            return Err(format!("kind of {} differs", name));
+        }
+        let fields: Vec<String> = t["fields"].as_array().map(|fs| fs.iter().map(|f| format!("{}({}):{}", f["name"].as_str().unwrap_or(""), f["args"].as_array().map(|a| a.iter().map(|x| format!("{}:{}={}", x["name"].as_str().unwrap_or(""), type_text(&x["type"]), x["defaultValue"].as_str().unwrap_or("-"))).collect::<Vec<_>>().join(",")).unwrap_or_default(), type_text(&f["type"]))).collect()).unwrap_or_default();
+        let mine: Vec<String> = td.fields.iter().map(|f| format!("{}({}):{}", f.name, f.args.iter().map(|a| format!("{}:{}={}", a.name, a.ty.show(), a.default.as_ref().map(vgql::print::print_value_plain).unwrap_or("-".into()))).collect::<Vec<_>>().join(","), f.ty.show())).collect();
+        if fields != mine {
+            return Err(format!("fields of {} differ: {:?} vs mirror {:?}", name, fields, mine));
+        }
+        let inputs: Vec<String> = t["inputFields"].as_array().map(|fs| fs.iter().map(|x| format!("{}:{}={}", x["name"].as_str().unwrap_or(""), type_text(&x["type"]), x["defaultValue"].as_str().unwrap_or("-"))).collect()).unwrap_or_default();
+        let mine: Vec<String> = td.input_fields.iter().map(|a| format!("{}:{}={}", a.name, a.ty.show(), a.default.as_ref().map(vgql::print::print_value_plain).unwrap_or("-".into()))).collect();
+        if inputs != mine {
+            return Err(format!("input fields of {} differ: {:?} vs mirror {:?}", name, inputs, mine));
+        }
+        let names = |k: &str| -> Vec<String> {
+            let mut v: Vec<String> = t[k].as_array().map(|a| a.iter().map(|x| x["name"].as_str().unwrap_or("").to_string()).collect()).unwrap_or_default();
+            v.sort();
+            v
+        };
+        let mut vals: Vec<String> = td.values.iter().map(|v| v.name.clone()).collect();
+        vals.sort();
+        if names("enumValues") != vals {
+            return Err(format!("enum values of {} differ", name));
+        }
+        if matches!(td.kind, Kind::Union | Kind::Interface) {
+            let mut pt = sch.possible_types(name);
+            pt.sort();
+            if names("possibleTypes") != pt {
+                return Err(format!("possible types of {} differ", name));
+            }
+        }
+    }
+    if seen != sch.types.len() {
+        return Err(format!("the mirror has {} types, introspection {}", sch.types.len(), seen));
+    }
+    if !sch.ty("Key").map_or(false, |t| t.one_of) {
+        return Err("Key is not OneOf in the mirror".into());
+    }
+    // directives
+    let mut served: Vec<String> = sc["directives"].as_array().ok_or("directives")?.iter().map(|d| {
+        let mut locs: Vec<String> = d["locations"].as_array().map(|a| a.iter().map(|x| x.as_str().unwrap_or("").to_string()).collect()).unwrap_or_default();
+        locs.sort();
+        format!("@{}({}) on {} repeatable={}", d["name"].as_str().unwrap_or(""), d["args"].as_array().map(|a| a.iter().map(|x| format!("{}:{}", x["name"].as_str().unwrap_or(""), type_text(&x["type"]))).collect::<Vec<_>>().join(",")).unwrap_or_default(), locs.join("|"), d["isRepeatable"])
+    }).collect();
+    served.sort();
+    let mut spec: Vec<String> = builtin_directives().iter().map(|d| {
+        let mut locs: Vec<String> = d.locations.iter().map(|l| l.to_string()).collect();
+        locs.sort();
+        format!("@{}({}) on {} repeatable={}", d.name, d.args.iter().map(|a| format!("{}:{}", a.name, a.ty.show())).collect::<Vec<_>>().join(","), locs.join("|"), d.repeatable)
+    }).collect();
+    spec.sort();
+    if served != spec {
+        return Err(format!("served directives {:?} differ from the specification's {:?}", served, spec));
+    }
+    Ok(())
+}
+
+// ---------------------------------------------------------------------------------------------------------------
+
+pub fn run(ctx: &mut Ctx) {
+    ctx.rule = "requests = (schema, document, variables, operation name): documents from the typed generator (valid by construction) over random dynamic schemas and the \
+                derive-built static schema of this module, unchanged, or changed by one (1 in 8: two) of 28 rule-targeted mutation operators, or by one of 6 operators expected to keep \
+                them valid; the reference validator (GraphQL October 2021 section 5 + OneOf RFC + CoerceVariableValues) decides validity and names the rules. Non-trivial = invalid by \
+                exactly one rule, or valid with at least one variable and one fragment; distinct by rendered request"
+        .into();
+    ctx.assume("the operation to execute can be determined (operationName names an operation of the document, or the document has one operation): GetOperation failures are request errors outside section 5");
+    ctx.assume("custom scalar literals and values: only what the harness's scalars define (integers 0..=9 valid, other integers/kinds invalid per the scalar's own coercion)");
+    ctx.assume("@skip/@include on the root selections of a subscription are not generated (the October 2021 text evaluates them with an empty variable map; later drafts forbid them)");
+    ctx.assume("integral floats for Int variables and similar cases that vgql::coerce marks implementation-defined are discarded");
+    ctx.assume("Upload-typed variables are outside the domain (documented restriction of async-graphql)");
+    ctx.assume("variables inside variable default values are a syntax matter (C13), not generated");
+    ctx.assume("valid requests run against fault-free data, so any error in a response to a valid request is a failure");
+
+    // static target
+    let tap = Tap::default();
+    let schema: st::S = async_graphql::Schema::build(st::Query, st::Mutation, st::Subscription).extension(tap.clone()).finish();
+    let static_sch = match from_sdl_text(&schema.sdl()) {
+        Ok(s) => s,
+        Err(e) => {
+            ctx.inconclusive(format!("HARNESS: the static schema's SDL is not readable: {}", e));
+            return;
+        }
+    };
+    if let Err(e) = check_mirror(&schema, &static_sch) {
+        ctx.inconclusive(format!("HARNESS: static schema mirror: {}", e));
+        return;
+    }
+
+    let findings: [(&str, Quirks); 5] = [
+        ("C09-F1", Quirks { no_variable_usage_check: true, ..Quirks::default() }),
+        ("C09-F2", Quirks { merge_same_condition_only: true, ..Quirks::default() }),
+        ("C09-F3", Quirks { no_subscription_root_count: true, ..Quirks::default() }),
+        ("C09-F4", Quirks { last_duplicate_input_field_wins: true, ..Quirks::default() }),
+        ("C09-F5", Quirks { non_object_for_input_object_accepted: true, ..Quirks::default() }),
+    ];
+    let open: Vec<(String, Quirks)> = findings.iter().filter(|(id, _)| ctx.open(id)).map(|(id, q)| (id.to_string(), *q)).collect();
+    let is_open = |id: &str| open.iter().any(|(i, _)| i == id);
+    let excl = Excl {
+        var_position: is_open("C09-F1"),
+        cross_condition_conflicts: is_open("C09-F2"),
+        subscription_roots: is_open("C09-F3"),
+        duplicate_input_fields: is_open("C09-F4"),
+        non_object_for_input: is_open("C09-F5"),
+        force_input_kind: None,
+    };
+    for (id, _) in &open {
+        ctx.excluded(id);
+    }
+    let plan = Plan { excl, open: open.clone(), force: None, only_subscriptions: false, omitted_var_with_arg_default: !ctx.open("C06-F1") };
+
+    if let Ok(p) = std::env::var("C09_PROBE") {
+        probe_file(&p, &schema, &tap, &static_sch);
+        return;
+    }
+
+    let st_target = Target::Static { schema: &schema, tap: &tap, sch: &static_sch };
+    let n = ctx.tier.pick(4_000, 150_000);
+    ctx.stream("dynamic", n, 700, |s| run_case(s, &Target::Dynamic, &plan));
+    ctx.stream("static", n * 3 / 4, 500, |s| run_case(s, &st_target, &plan));
+
+    // probe streams: the constructs of the open findings, deviations must be exactly the predicted ones
+    let probes: [(&str, &str, Operator, Option<u8>, bool); 5] = [
+        ("C09-F1", "variable-type", op_variable_type, None, false),
+        ("C09-F2", "conflicting-response-keys", op_conflict, None, false),
+        ("C09-F3", "subscription-roots", op_subscription_roots, None, true),
+        ("C09-F4", "duplicate-input-field", op_probe_input_object, Some(3), false),
+        ("C09-F5", "non-object-for-input-object", op_probe_input_object, Some(0), false),
+    ];
+    for (id, label, f, kind, subs) in probes {
+        if !is_open(id) {
+            continue;
+        }
+        let mut p = plan.clone();
+        p.force = Some((label, f));
+        p.only_subscriptions = subs;
+        p.excl.force_input_kind = kind;
+        match id {
+            "C09-F1" => p.excl.var_position = false,
+            "C09-F2" => p.excl.cross_condition_conflicts = false,
+            "C09-F3" => p.excl.subscription_roots = false,
+            "C09-F4" => p.excl.duplicate_input_fields = false,
+            _ => p.excl.non_object_for_input = false,
+        }
+        let name = format!("probe-{}", id);
+        ctx.stream(&name, n / 10, 700, |s| if s.bool() { run_case(s, &Target::Dynamic, &p) } else { run_case(s, &st_target, &p) });
+    }
+
+    for r in RULES {
+        ctx.floor(&format!("rule:{}", r), 1);
+    }
+    ctx.floor("valid", 100);
+    ctx.floor("valid-with-variables-and-fragments", 20);
+}
+
+fn probe_file(path: &str, schema: &st::S, tap: &Tap, static_sch: &Sch) {
+    let j: serde_json::Value = serde_json::from_str(&std::fs::read_to_string(path).expect("probe file")).expect("probe json");
+    for c in j.as_array().expect("array") {
+        let text = c["query"].as_str().unwrap().to_string();
+        let vars: IndexMap<String, CV> = c["variables"].as_object().map(|o| o.iter().map(|(k, v)| (k.clone(), CV::from_json(v))).collect()).unwrap_or_default();
+        let op_name = c["operationName"].as_str();
+        let dynsch = c["sdl"].as_str().map(|s| from_sdl_text(s).expect("sdl"));
+        let sch = dynsch.as_ref().unwrap_or(static_sch);
+        let doc = vgql::refparse::parse_executable(&text, &vgql::refparse::Opts::default());
+        println!("--- {}\n    vars {} op {:?}", text, serde_json::Value::Object(vars.iter().map(|(k, v)| (k.clone(), v.to_json())).collect()), op_name);
+        match &doc {
+            Ok(d) => {
+                let r = validate_full(&Input { sch, doc: d, op_name, vars: &vars, non_executable_defs: 0, custom_scalar_ok: &custom_scalar_ok }, Quirks::default());
+                println!("    reference: {:?} dont_care {:?}", r.violations.iter().map(|v| format!("[{}] {}", v.rule, v.msg)).collect::<Vec<_>>(), r.dont_care);
+            }
+            Err(e) => println!("    reference parser: {:?}", e.msg),
+        }
+        let stream = doc.as_ref().ok().and_then(|d| selected_kind(d, op_name)) == Some(OpKind::Subscription);
+        let req = request(&text, &vars, op_name);
+        let out = match &dynsch {
+            None => run_static(schema, tap, req, stream),
+            Some(s) => {
+                let w = gen_world(s, &mut vcore::src::VecSrc::new(&[]), &WorldCfg { null_composite_items: false, ..WorldCfg::default() });
+                run_dynamic(s, &w, req, stream).expect("build")
+            }
+        };
+        println!("    actual: validation {:?} resolver_calls {} responses {}", out.validation.as_ref().map(|v| v.as_ref().map_err(|e| e.iter().map(|x| x.message.clone()).collect::<Vec<_>>())), out.resolver_calls, out.responses.iter().map(|r| serde_json::to_string(r).unwrap()).collect::<Vec<_>>().join(" "));
+    }
 }
